@@ -63,6 +63,9 @@ func (c *Ctx) parseFileModel() (*pfModel, error) {
 	if fd == nil {
 		return nil, fmt.Errorf("ParseFile not found")
 	}
+	// ParseFile as a thin wrapper (`return parseFile(f, makeConfig(opts))`): the function that is handed the input
+	// and does the work is the one looked at
+	fd, fileIdx := c.throughThinWrappers(fd, 0)
 	m := &pfModel{Func: fd, Chans: map[types.Object]string{}, Files: map[types.Object]bool{}, ChanFields: map[string]string{}, ChanElem: map[string]types.Type{}}
 	// channels made inside a struct literal (the goroutines' shared state kept in a struct)
 	ast.Inspect(fd.Body, func(n ast.Node) bool {
@@ -91,7 +94,7 @@ func (c *Ctx) parseFileModel() (*pfModel, error) {
 		}
 		return true
 	})
-	m.FileParam = c.paramObj(fd, 0)
+	m.FileParam = c.paramObj(fd, fileIdx)
 	m.Files[m.FileParam] = true
 	if fd.Type.Results != nil {
 		for _, f := range fd.Type.Results.List {
@@ -1246,6 +1249,10 @@ func ruleChunkImmutable(c *Ctx, r *Report, rule string) {
 	r.check(!usesUnsafe, rule, "no-unsafe", "the library does not import unsafe", "the library imports unsafe: string/slice aliasing would defeat the immutability of chunks", "")
 	// Parse uses the same pipeline
 	_, pf := c.find("Parse")
+	inIdx := 0
+	if pf != nil {
+		pf, inIdx = c.throughThinWrappers(pf, 0)
+	}
 	same := false
 	if pf != nil {
 		for _, cs := range c.callsOf(pf) {
@@ -1264,7 +1271,7 @@ func ruleChunkImmutable(c *Ctx, r *Report, rule string) {
 				return false
 			}
 			tv, okT := c.infoFor(call).Types[call.Fun]
-			return okT && tv.IsType() && types.TypeString(tv.Type, nil) == "string" && c.isObj(call.Args[0], c.paramObj(pf, 0))
+			return okT && tv.IsType() && types.TypeString(tv.Type, nil) == "string" && c.isObj(call.Args[0], c.paramObj(pf, inIdx))
 		}
 		ast.Inspect(pf.Body, func(n ast.Node) bool {
 			switch n := n.(type) {
@@ -1301,4 +1308,39 @@ func ruleChunkImmutable(c *Ctx, r *Report, rule string) {
 		})
 		r.check(okSend && sends == 1, rule, "parse-input-verbatim", "Parse sends string(input), once", "Parse must hand the input bytes to the lexer unchanged (one send of string(input)): rewriting them (line-end normalisation, trimming) changes string literals and positions", c.pos(pf.Pos()))
 	}
+}
+
+// throughThinWrappers: while fd's body is the single statement `return g(…)` with g a plain function of the module
+// that is handed fd's parameter idx, continue with g and the position of that argument (an exported entry point
+// that only turns its options into a config and delegates).
+func (c *Ctx) throughThinWrappers(fd *ast.FuncDecl, idx int) (*ast.FuncDecl, int) {
+	for depth := 0; depth < 3 && fd != nil && fd.Body != nil && len(fd.Body.List) == 1; depth++ {
+		rs, isRet := fd.Body.List[0].(*ast.ReturnStmt)
+		if !isRet || len(rs.Results) != 1 {
+			break
+		}
+		call, isCall := stripParens(rs.Results[0]).(*ast.CallExpr)
+		if !isCall {
+			break
+		}
+		fn, isFn := c.callee(call).(*types.Func)
+		if !isFn || fn.Pkg() == nil || fn.Pkg().Path() != bclPath {
+			break
+		}
+		hd := c.funcDecls[fn]
+		if hd == nil || hd.Body == nil || hd.Recv != nil {
+			break
+		}
+		next := -1
+		for k, a := range call.Args {
+			if c.isObj(a, c.paramObj(fd, idx)) {
+				next = k
+			}
+		}
+		if next < 0 {
+			break
+		}
+		fd, idx = hd, next
+	}
+	return fd, idx
 }
